@@ -476,6 +476,49 @@ func genMultiOrigin(rng *rand.Rand) []pomFile {
 	return chain
 }
 
+// genAddedShape: where the chain has a <dependencyManagement>: 0 nowhere, 1 at the top level of the project
+// (possibly empty), 2 only inside a profile of the project, 3 only in the local parent.
+func genAddedShape(rng *rand.Rand, shape int) []pomFile {
+	child := genPom(rng, false, 0)
+	child.HasMgmt, child.Mgmt = false, nil
+	for i := range child.Profiles {
+		child.Profiles[i].Mgmt = nil
+	}
+	var keep []pProfile
+	for _, pr := range child.Profiles {
+		if len(pr.Deps) > 0 {
+			keep = append(keep, pr)
+		}
+	}
+	child.Profiles = keep
+	chain := []pomFile{{Path: "pom.xml", Pom: child}}
+	switch shape {
+	case 1:
+		child.HasMgmt = true
+		child.Mgmt = genDeps(rng, &propEnv{n: 700}, rng.Intn(3), false, map[string]bool{})
+		for i := range child.Mgmt {
+			if strings.Contains(child.Mgmt[i].V, "${") {
+				child.Mgmt[i].V = "3.3"
+			}
+		}
+	case 2:
+		pr := pProfile{ID: "legacy", Mgmt: []pDep{{G: "org.prof", A: "managed-in-profile", V: "1.4"}}}
+		if rng.Intn(2) == 0 {
+			pr.Deps = []pDep{{G: "org.prof", A: "dep-in-profile", V: "0.3"}}
+		}
+		child.Profiles = append(child.Profiles, pr)
+	case 3:
+		chain[0].Path = "child/pom.xml"
+		par := genPom(rng, true, 1)
+		par.Profiles, par.Plugins = nil, nil
+		par.HasMgmt = true
+		par.Mgmt = []pDep{{G: "org.par", A: "managed-in-parent", V: "2.4"}}
+		child.Parent = &pParentRef{G: par.G, A: par.A, V: par.V, Rel: "../pom.xml"}
+		chain = append(chain, pomFile{Path: "pom.xml", Pom: par})
+	}
+	return chain
+}
+
 type pomFile struct {
 	Path string `json:"path"`
 	Pom  *pPom  `json:"pom"`
@@ -721,6 +764,40 @@ func dropBlank(ts []tok) []tok {
 	return out
 }
 
+// dropAdded removes the <dependency> subtrees whose groupId:artifactId is one of the added requirements.
+func dropAdded(ts []tok, added map[string]bool) []tok {
+	var out []tok
+	for i := 0; i < len(ts); i++ {
+		if ts[i].Kind == "S" && strings.Contains(ts[i].Text, " dependency [") {
+			depth, j := 0, i
+			g, a := "", ""
+			for ; j < len(ts); j++ {
+				if ts[j].Kind == "S" {
+					depth++
+				} else if ts[j].Kind == "E" {
+					depth--
+					if depth == 0 {
+						break
+					}
+				} else if ts[j].Kind == "T" && depth == 2 {
+					if strings.HasSuffix(ts[j].Path, ">groupId") {
+						g = strings.TrimSpace(ts[j].Text)
+					}
+					if strings.HasSuffix(ts[j].Path, ">artifactId") {
+						a = strings.TrimSpace(ts[j].Text)
+					}
+				}
+			}
+			if added[g+":"+a] {
+				i = j
+				continue
+			}
+		}
+		out = append(out, ts[i])
+	}
+	return out
+}
+
 var versionPathRe = regexp.MustCompile(`(^|>)(dependency|parent)>version$`)
 var propPathRe = regexp.MustCompile(`(^|>)properties>[^>]+$`)
 
@@ -728,7 +805,7 @@ var propPathRe = regexp.MustCompile(`(^|>)properties>[^>]+$`)
 // differences allowed are texts directly inside dependency>version, parent>version and properties>X;
 // when insertion is true, added <dependency> subtrees / an added <dependencyManagement> block are
 // allowed and blank text is ignored.
-func compareTokens(in, out string, strict, insertion bool) (bool, string) {
+func compareTokens(in, out string, strict, insertion bool, addedNames map[string]bool) (bool, string) {
 	ti, err := tokenize(in)
 	if err != nil {
 		return false, "input does not tokenize: " + err.Error()
@@ -738,7 +815,7 @@ func compareTokens(in, out string, strict, insertion bool) (bool, string) {
 		return false, "output does not tokenize: " + err.Error()
 	}
 	if insertion {
-		ti, to = dropBlank(ti), dropBlank(to)
+		ti, to = dropBlank(ti), dropAdded(dropBlank(to), addedNames)
 	}
 	i, j := 0, 0
 	for i < len(ti) && j < len(to) {
@@ -895,7 +972,13 @@ func (c *pomCase) run(pickUpdates func(m guidedremediation.VerifManifest, reqs [
 			continue
 		}
 		c.Out[p] = string(b)
-		ok, note := compareTokens(content, string(b), len(c.Updates) == 0, insertion)
+		addedNames := map[string]bool{}
+		for _, u := range c.Updates {
+			if u.New {
+				addedNames[u.Name] = true
+			}
+		}
+		ok, note := compareTokens(content, string(b), len(c.Updates) == 0, insertion, addedNames)
 		if !ok {
 			c.TokensOK = false
 			c.TokensNote = p + ": " + note
@@ -916,7 +999,13 @@ func (c *pomCase) run(pickUpdates func(m guidedremediation.VerifManifest, reqs [
 		after[p] = o
 	}
 	if da, err := readChain(after, chainPaths); err == nil {
-		c.DAfter = keepShape(c.DChain, da)
+		var addedKeys []string
+		for _, u := range c.Updates {
+			if u.New {
+				addedKeys = append(addedKeys, mReqKey(u.Name, u.Type, u.Classifier))
+			}
+		}
+		c.DAfter = keepShape(c.DChain, da, addedKeys)
 	} else {
 		c.ChainOK = false
 	}
@@ -955,6 +1044,20 @@ func (c *pomCase) run(pickUpdates func(m guidedremediation.VerifManifest, reqs [
 			}
 			have[s]--
 		}
+		// ... and every added requirement is listed by Read, in dependencyManagement, with VersionTo
+		for _, u := range c.Updates {
+			if !u.New {
+				continue
+			}
+			found := false
+			pre := mReqKey(u.Name, u.Type, u.Classifier) + "|management|"
+			for _, s := range b {
+				found = found || (strings.HasPrefix(s, pre) && strings.HasSuffix(s, "|"+u.To))
+			}
+			if !found {
+				c.RereadOK = false
+			}
+		}
 	}
 }
 
@@ -986,7 +1089,6 @@ func (c *pomCase) domain() {
 	for _, u := range c.Updates {
 		if u.New {
 			note("update not addressed to a present requirement")
-			c.TokClaimed = false
 			continue
 		}
 		k := mReqKey(u.Name, u.Type, u.Classifier)
@@ -1294,6 +1396,16 @@ func (pomEmitter) generate(rng *rand.Rand, n int) []anyCase {
 			out = append(out, c)
 		}
 	}
+	{ // an added managed dependency over an empty <dependencyManagement><dependencies/>
+		p := simplePom(nil, "1.0", 0)
+		p.HasMgmt = true
+		fixed("boundary", p, []mUpdate{{Name: "org.new:added", From: "", To: "2.0", Origin: "management", New: true}})
+		q := simplePom(nil, "1.0", 0) // ... and with no dependencyManagement at all / only inside a profile
+		fixed("boundary", q, []mUpdate{{Name: "org.new:added", From: "", To: "2.0", Origin: "management", New: true}})
+		r := simplePom(nil, "1.0", 0)
+		r.Profiles = []pProfile{{ID: "legacy", Mgmt: []pDep{{G: "org.prof", A: "managed", V: "1.4"}}}}
+		fixed("boundary", r, []mUpdate{{Name: "org.new:added", From: "", To: "2.0", Origin: "management", New: true}})
+	}
 	{ // two requirements share one property, one of them is updated
 		p := simplePom([][2]string{{"v", "1.0"}}, "${v}", 0)
 		p.Deps = append(p.Deps, pDep{G: "org.example", A: "beta", V: "${v}"})
@@ -1307,6 +1419,27 @@ func (pomEmitter) generate(rng *rand.Rand, n int) []anyCase {
 		case r < 12:
 			c.Stream = "zero-updates"
 			c.run(func(guidedremediation.VerifManifest, []resolve.RequirementVersion) []mUpdate { return nil })
+		case r >= 64 && r < 74:
+			c.Stream = "added-management"
+			shape := k % 4
+			c.Chain = genAddedShape(rng, shape)
+			c.run(func(m guidedremediation.VerifManifest, reqs []resolve.RequirementVersion) []mUpdate {
+				ups := []mUpdate{{Name: "org.new:" + pick(rng, mArtifacts), From: "", To: pick(rng, mNewVers), Origin: "management", New: true}}
+				if rng.Intn(3) == 0 {
+					ups = append(ups, mUpdate{Name: "org.new:second", From: "", To: "2.2", Origin: "management", New: true, Classifier: "tests"})
+				}
+				if rng.Intn(3) == 0 { // together with an ordinary update of a literal version
+					for _, j := range rng.Perm(len(reqs)) {
+						rq := reqs[j]
+						if o, _ := rq.Type.GetAttr(dep.MavenDependencyOrigin); o == "parent" || rq.Version == "" || strings.Contains(rq.Version, "${") {
+							continue
+						}
+						ups = append(ups, updateOfReq(rq, pick(rng, mNewVers)))
+						break
+					}
+				}
+				return ups
+			})
 		case r >= 74 && r < 90:
 			c.Stream = "same-property-multi-origin"
 			c.Chain = genMultiOrigin(rng)
@@ -1337,7 +1470,7 @@ func (pomEmitter) generate(rng *rand.Rand, n int) []anyCase {
 				}
 				return nil
 			})
-		case r < 74:
+		case r < 64:
 			c.Stream = "addressed"
 			c.run(func(m guidedremediation.VerifManifest, reqs []resolve.RequirementVersion) []mUpdate {
 				var ups []mUpdate
@@ -1370,6 +1503,9 @@ func (pomEmitter) generate(rng *rand.Rand, n int) []anyCase {
 				}
 				for _, j := range rng.Perm(len(reqs)) {
 					rq := reqs[j]
+					if o, _ := rq.Type.GetAttr(dep.MavenDependencyOrigin); o == "parent" || rq.Version == "" {
+						continue
+					}
 					if !strings.Contains(rq.Version, "${") && rng.Intn(2) == 0 {
 						ups = append(ups, updateOfReq(rq, pick(rng, mNewVers)))
 						break
